@@ -319,8 +319,10 @@ class Harness:
         raise HarnessError('pump did not reach quiescence in %d steps' %
                            max_steps)
 
-    def cut_wire(self) -> None:
-        """Lose the connection now: queued bytes vanish, both ends see EOF"""
+    def cut_wire(self, exc: Optional[BaseException] = None) -> None:
+        """Lose the connection now: queued bytes vanish, both ends see EOF
+        (exc None: an orderly end of stream) or the socket error exc (what
+        asyncio hands to connection_lost after a TCP reset or a timeout)"""
 
         wire = self.wire
         wire.cut = True
@@ -334,7 +336,7 @@ class Harness:
                 wire.closed[side] = True
                 wire.eof_delivered[side] = True
                 wire.transports[side].closed = True
-                self.loop.call_soon(proto.connection_lost, None)
+                self.loop.call_soon(proto.connection_lost, exc)
 
     # -- tasks ------------------------------------------------------------
 
